@@ -1,4 +1,5 @@
 import CalVerif.Lemmas.Metadata
+import CalVerif.Lemmas.MetadataFormula
 import CalVerif.Model.MetadataCells
 /-! # C16 — workbook metadata is reported faithfully and in workbook order
 
@@ -192,6 +193,70 @@ theorem defined_names_in_order_xls (pd : Bytes → Res (Option Nat × Text))
   rw [sheets_in_order_xls pd recs hall tail htail hoff] at h
   cases h
   rfl
+
+/-- **the XTI → sheet resolution against an independent specification.** `Refers` / `NameMeets` (Spec/MetadataEnc) are
+    written from MS-XLS 2.4.105 / 2.4.150 / 2.5.198.x, not from the code: a 3-D reference through XTI entry `ixti`
+    designates the sheet with BoundSheet8 index `itabFirst` (signed 16 bit) of that entry; a reference that designates
+    no sheet of the workbook (no such entry, `itabFirst` = −1 / −2 / beyond the last sheet) reads `#REF`. For every
+    declared Lbl, whatever its scope `itab` (global or sheet-local: the encoder takes any value and the result does
+    not mention it), the reader reports at the same position the name and the text the specification demands. -/
+theorem defined_names_xls_meet_spec (pd : Bytes → Res (Option Nat × Text))
+    (recs : List GRec) (hall : ∀ r ∈ recs, r.ok pd) (tail : Bytes) (htail : Biff.notCont tail)
+    (hoff : ∀ s ∈ declaredSheets recs, s.offset ≤ (encodeGlobals recs tail).length)
+    (wb : Workbook Text) (h : parseWorkbookXls pd (encodeGlobals recs tail) = .ok wb) :
+    wb.names.length = (declaredNames pd recs).length ∧
+    ∀ (i : Nat) (decl : Text × Option Nat × Text), (declaredNames pd recs)[i]? = some decl → ∃ got : Text × Text, wb.names[i]? = some got ∧
+      NameMeets ((declaredSheets recs).map (fun s => s.decoded.2.name)) (declaredXtiTriples recs) decl got := by
+  have hn := defined_names_in_order_xls pd recs hall tail htail hoff wb h
+  rw [hn, declaredXtis_eq]
+  refine ⟨by simp, ?_⟩
+  intro i decl hd
+  refine ⟨_, by rw [List.getElem?_map, hd]; rfl, ?_⟩
+  have := resolveName_meets ((declaredSheets recs).map XlsSheet.decoded) (declaredXtiTriples recs) decl
+  simpa [List.map_map, Function.comp_def] using this
+
+/-- **defined names decoded (formula decoder instantiated with C14's model).** With `pd` = C14's model of
+    `parse_defined_names`: a Lbl whose formula is a 3-D cell reference (`PtgRef3d`, any operand class) through XTI
+    entry `ixti` to the cell `a` (row below 2^16, column below 2^14, absolute or relative row / column) is acceptable
+    to the decoder, and when the reference designates the sheet named `s` it is reported, at the position of the Lbl
+    among the Lbl records, as `<name>` ↦ `s!<A1 text of a>` — `$` exactly before the absolute parts (C14
+    `ref_text_flags`), e.g. `S1!$B$3`, `S1!A1` — by `parse_workbook`. -/
+theorem defined_names_xls_decoded
+    (pre post : List GRec) (us : List Nat) (wide : Bool) (itab : Nat) (op : UInt8) (hop : op = 0x3A ∨ op = 0x5A ∨ op = 0x7A)
+    (ixti : Nat) (hi : ixti < 65536) (a : Formula.CellRef) (hr : a.row < 65536) (hcol : a.col < 16384)
+    (hall : ∀ r ∈ pre ++ .lbl us wide itab (op :: (Biff.le16 ixti ++ (Biff.le16 a.row ++ Biff.le16 (Formula.colRel a)))) :: post, r.ok pdC14)
+    (tail : Bytes) (htail : Biff.notCont tail)
+    (hoff : ∀ s ∈ declaredSheets (pre ++ .lbl us wide itab (op :: (Biff.le16 ixti ++ (Biff.le16 a.row ++ Biff.le16 (Formula.colRel a)))) :: post),
+      s.offset ≤ (encodeGlobals (pre ++ .lbl us wide itab (op :: (Biff.le16 ixti ++ (Biff.le16 a.row ++ Biff.le16 (Formula.colRel a)))) :: post) tail).length)
+    (s : Text)
+    (href : Refers ((declaredSheets (pre ++ .lbl us wide itab (op :: (Biff.le16 ixti ++ (Biff.le16 a.row ++ Biff.le16 (Formula.colRel a)))) :: post)).map (fun s => s.decoded.2.name))
+      (declaredXtiTriples (pre ++ .lbl us wide itab (op :: (Biff.le16 ixti ++ (Biff.le16 a.row ++ Biff.le16 (Formula.colRel a)))) :: post)) ixti s)
+    (wb : Workbook Text)
+    (h : parseWorkbookXls pdC14 (encodeGlobals (pre ++ .lbl us wide itab (op :: (Biff.le16 ixti ++ (Biff.le16 a.row ++ Biff.le16 (Formula.colRel a)))) :: post) tail) = .ok wb) :
+    wb.names[(declaredNames pdC14 pre).length]? = some (Biff.decodeUtf16 us, s ++ 33 :: textOfChars (Formula.cellText a)) := by
+  obtain ⟨_, hsp⟩ := defined_names_xls_meet_spec pdC14 _ hall tail htail hoff wb h
+  have hpd := pdC14_ref3d op hop ixti hi a hr hcol
+  have hdecl : (declaredNames pdC14 (pre ++ .lbl us wide itab (op :: (Biff.le16 ixti ++ (Biff.le16 a.row ++ Biff.le16 (Formula.colRel a)))) :: post))[(declaredNames pdC14 pre).length]? =
+      some (Biff.decodeUtf16 us, some ixti, textOfChars (Formula.cellText a)) := by
+    rw [declaredNames_append]
+    simp [declaredNames, pdValue, hpd]
+  obtain ⟨got, hg, hname, hrest⟩ := hsp _ _ hdecl
+  rw [hg]
+  simp only at hrest hname
+  have := hrest.1 s href
+  obtain ⟨g1, g2⟩ := got
+  simp only at hname this
+  rw [hname, this]
+
+/-- the decoder hypothesis of `defined_names_xls_decoded` holds for concrete tokens: `PtgRef3d` (value class) through
+    XTI 0 to `$B$3`, and to the relative `B3` -/
+example :
+    pdC14 (0x5A :: (Biff.le16 0 ++ (Biff.le16 2 ++ Biff.le16 (Formula.colRel ⟨2, 1, true, true⟩)))) =
+      .ok (some 0, textOfChars (Formula.cellText ⟨2, 1, true, true⟩)) ∧
+    pdC14 (0x3A :: (Biff.le16 0 ++ (Biff.le16 2 ++ Biff.le16 (Formula.colRel ⟨2, 1, false, false⟩)))) =
+      .ok (some 0, textOfChars (Formula.cellText ⟨2, 1, false, false⟩)) :=
+  ⟨pdC14_ref3d 0x5A (by decide) 0 (by decide) ⟨2, 1, true, true⟩ (by decide) (by decide),
+   pdC14_ref3d 0x3A (by decide) 0 (by decide) ⟨2, 1, false, false⟩ (by decide) (by decide)⟩
 
 /-- **xls: the date-system flag** read from the globals is the one DATEMODE declares -/
 theorem date1904_flag_xls (pd : Bytes → Res (Option Nat × Text))
